@@ -111,6 +111,7 @@ package iam
 //@ func validatePresentationSigner
 //@   prop C02 C19
 //@   safety
+//@   assume-benign
 //@   ensures [signer-iff-ok] isNilIface(result.1) ==> result.0 != nil
 //@   ensures [presenter-is-subject-of-its-credentials] isNilIface(result.1) && len(presentation.VerifiableCredential) > 0 ==>
 //@        isNilIface(ret(call credential.PresenterIsCredentialSubject #1).1) && result.0 == ret(call credential.PresenterIsCredentialSubject #1).0
@@ -124,6 +125,7 @@ package iam
 //@ func (Wrapper).validatePresentationAudience
 //@   prop C02 C19
 //@   safety
+//@   assume-benign
 //@   loop 1 invariant true
 //@   ensures [addressed-to-this-authorization-server] isNilIface(result) ==> did(call (*url.URL).String #1)
 //@        && (exists k int :: 0 <= k && k < len(audience) && audience[k] == ret(call (*url.URL).String #1))
@@ -274,3 +276,51 @@ package iam
 //@        && isNilIface(ret(call dpopFromRequest #1).1) && arg(6) == ret(call dpopFromRequest #1).0
 //@   ensures [code-is-dead-after-any-attempt] request.Code != nil ==> did(call (storage.SessionStore).Delete #1) && arg(call (storage.SessionStore).Delete #1, 1) == *request.Code
 //@   ensures [token-only-from-createAccessToken] isNilIface(result.1) ==> did(call (Wrapper).createAccessToken #1) && isNilIface(ret(call (Wrapper).createAccessToken #1).1)
+
+// ---- C02: OpenID4VP authorization response (authorization-code flow, server side) ----
+
+//@ func (Wrapper).oauthClientStateStore
+//@   prop C02
+//@   assume-benign
+//@   ensures !isNilIface(result)
+//@ func (Wrapper).oauthNonceStore
+//@   prop C02
+//@   assume-benign
+//@   ensures !isNilIface(result)
+//@ func (OAuthSession).redirectURI
+//@   prop C02
+//@   assume-benign
+//@ func (Wrapper).validatePresentationNonce
+//@   prop C02 C05
+//@   assume-benign
+//@ func withCallbackURI
+//@   prop C02
+//@   assume-benign
+//@ func (Wrapper).nextOpenID4VPFlow
+//@   prop C02
+//@   assume-benign
+//@ func http.AddQueryParams
+//@   trusted
+//@   benign
+
+// An authorization code is stored only for the session the state refers to, of this tenant, after the
+// nonce check bound the presentations to that state, every presentation passed the presenter and
+// audience checks and verified, the submission fulfilled a required definition, and no definition
+// is left to fulfil.
+//@ func (Wrapper).handleAuthorizeResponseSubmission
+//@   prop C02 C19
+//@   requires request.Body != nil
+//@   loop 1 invariant pexEnvelope != nil && submission != nil && request.Body != nil && request.Body.State != nil
+//@   loop 1 invariant !did(call (Wrapper).validatePresentationAudience #1) || isNilIface(ret(call (Wrapper).validatePresentationAudience #1))
+//@   loop 2 invariant pexEnvelope != nil && submission != nil && request.Body != nil && request.Body.State != nil
+//@   loop 2 invariant !did(call (verifier.Verifier).VerifyVP #1) || isNilIface(ret(call (verifier.Verifier).VerifyVP #1).1)
+//@   call (Wrapper).validatePresentationAudience #1 requires [after-presenter-check-of-the-same-presentation]
+//@        isNilIface(ret(call validatePresentationSigner #1).1) && same(arg(call validatePresentationSigner #1, 0), arg(1)) && arg(2) == request.SubjectID
+//@   call (*PEXConsumer).fulfill #1 requires [only-verified-presentations-are-recorded] $done1 && $done2
+//@        && isNilIface(ret(call (Wrapper).validatePresentationNonce #1)) && arg(call (Wrapper).validatePresentationNonce #1, 2) == state
+//@        && arg(call (Wrapper).validatePresentationNonce #1, 1) == pexEnvelope.Presentations
+//@        && isNilIface(ret(call (storage.SessionStore).Get #1)) && arg(call (storage.SessionStore).Get #1, 1) == state
+//@        && same(arg(1), *submission) && same(arg(2), *pexEnvelope)
+//@   call (storage.SessionStore).Put #2 requires [code-only-when-nothing-is-left-to-fulfil]
+//@        isNilIface(ret(call (*PEXConsumer).fulfill #1)) && ret(call (*PEXConsumer).next #1).0 == nil
+//@        && arg(1) == ret(call crypto.GenerateNonce #1) && typeOf(arg(2)) == OAuthSession
